@@ -86,10 +86,14 @@
 //       listed), transitions_ok (lemma_rd_closure_transitions; the magnitude clause `fewer than 2^17 vehicles in the cycles` by
 //       counting: the cycles hold exactly the vehicles, `Vehicle` ids are 16 bit), usage_exact.  sched_ok -- network, number of
 //       vehicles, vehicle_ok for every vehicle, `sum of the tours' costs <= costs <= 2^61` (costs shrink by exactly the costs of
-//       the tour that went) -- and with it rs_ok as a whole: proved GIVEN rd_listing_exact(result), i.e. the two conjuncts of
-//       sched_ok that say what `sched_vehicles(result)` IS (duplicate-free, lists exactly the vehicles with a tour):
-//       sched_vehicles is an UNINTERPRETED function of the whole schedule value (A-iter, env/schedule_shim.vs), so nothing about
-//       the listing of a new schedule value follows from any effect clause (lemma_rd_closure_sched).
+//       the tour that went) -- and with it rs_ok as a whole: ALSO unconditionally (lemma_rd_closure_sched).  The former premise
+//       rd_listing_exact(result) -- the two conjuncts of sched_ok that say what `sched_vehicles(result)` IS (duplicate-free, lists
+//       exactly the vehicles with a tour) -- is DISCHARGED (lemma_rd_listing_exact): sched_vehicles is DEFINED now
+//       (env/schedule_shim.vs: listing_of(vehicle types of the network, grouped id lists), the id lists concatenated in type order);
+//       the network is the same, the id list of the vehicle's type loses exactly one occurrence of the id and the other lists are
+//       the same (vehicle_gone, others_untouched), the type is listed exactly once (it has a rotation-cycle structure: vehicle_ok;
+//       transitions_ok -- part of rs_ok -- says the structures' keys are the listed types and the type list is duplicate-free), so
+//       the listing loses exactly one occurrence of the id (lemma_listing_lose) and the listing of `self` was exact (sched_ok).
 //       The schedule-invariant readings of the argument clauses: listed_ok holds for every OTHER vehicle for which it held; lists
 //       that matched the vehicles of their type (the one of v: once) still match (listings_match); every dummy that was listed
 //       still is and the new one is (dummy_listed_ok); every dummy tour that was dummy_tour_ok still is; an exact dummy listing
@@ -99,7 +103,8 @@
 //       proved, with ids_ok, dummy_listed_ok / dummy_tour_ok for every OTHER dummy, dd_dummy_listing_exact.  Every other component is
 //       the same, so every other invariant is INHERITED, stated one by one: formations_ok, transitions_ok, usage_exact,
 //       listings_match, listed_ok for every vehicle, type_known for every type, and the bundles sv_ok (lemma_dd_sv_ok) and rs_ok
-//       (lemma_dd_rs_ok; again GIVEN rd_listing_exact(result): sched_vehicles(result) is not known to be sched_vehicles(self)).
+//       (lemma_dd_rs_ok; unconditionally now: network and grouped id lists are the same, so sched_vehicles(result) ==
+//       sched_vehicles(self) -- lemma_sched_vehicles_frame --, and rd_listing_exact(result) holds: lemma_dd_listing_exact).
 //   (3) schedule invariants of the precondition = sv_ok = Network::wf + depot_lists_ok + sv_ids_ok + sv_formations_ok +
 //       transitions_ok + usage_exact + `costs <= 2^61`; instance validity: start_depots_ok, type_known (for every type); "about
 //       the arguments" = type_known(vt), dummy_listed_ok / dummy_tour_ok / spawn_counter_ok for d, some_depot_has_room(vt) (C06 /
@@ -115,12 +120,15 @@
 //       the new one is, every OTHER dummy is still listed / dummy_tour_ok, an exact dummy listing stays exact.
 //
 // NOT covered: (1) connectedness of the new dummy tour (A-path / D9, as in slices/remove_segment.vs), hence dummy_tour_ok for
-//   the NEW dummy tour (the precondition (3) has for the dummy it replaces) is not re-established; closure of tfu_pre; sched_ok /
-//   rs_ok of the result without the premise rd_listing_exact(result) ((1), (2): the link between sched_vehicles and the grouped id
-//   lists is not in the vocabulary); the error messages.  (3) WHEN the result is Ok beyond the three Err clauses (inherited from
+//   the NEW dummy tour (the precondition (3) has for the dummy it replaces) is not re-established; closure of tfu_pre; the error
+//   messages.  (The premise rd_listing_exact(result) of the closure of sched_ok / rs_ok in (1), (2) is gone: see CLOSURE.)
+//   (3) WHEN the result is Ok beyond the three Err clauses (inherited from
 //   spawn_vehicle_for_path, whose contract does not characterise it); that the callers establish the preconditions, in
 //   particular some_depot_has_room (C17 is not connected to it); the magnitude clauses of sv_ok without hypotheses on the result.
 //   Other slices stub these three functions with the contract text WITHOUT the closure clauses (a weaker, sound stub).
+//   env/transition_spec.vs is included `-proved` (its lemma bodies are checked in its home slices: transition, sched_guard,
+//   remove_segment, ...): none of them is specific to this slice, and one of them (lemma_three_opt_edge_sum) is seed-sensitive
+//   in this slice's context.
 #![feature(allocator_api)]
 use vstd::prelude::*;
 use std::ops::Add;
@@ -169,7 +177,7 @@ impl Clone for TransitionCycle {
 }
 //@item solution/src/transition.rs struct Transition : plain
 //@end
-//@include env/transition_spec.vs
+//@include-proved env/transition_spec.vs
 //@include env/schedule_shim.vs
 //@include env/sched_guard_shim.vs
 //@include env/spawn_vehicle_shim.vs
@@ -513,11 +521,13 @@ impl Clone for TransitionCycle {
         // transitions: one transition per type, consistent with the tours, holding exactly the vehicles of the type, the violation
         // is their sum; the magnitude clause (fewer than 2^17 vehicles in the cycles) by counting: ids are 16 bit
         r is Ok ==> r->Ok_0.transitions_ok(), // @obl C10.replace_vehicle_by_dummy.result_satisfies_the_schedule_invariants_again
-        // sched_ok (network, number of vehicles, vehicle_ok for every vehicle, the cost figure covers the tours' costs and stays
-        // below 2^61) and with it the whole bundle -- GIVEN the two conjuncts of sched_ok that say what the uninterpreted listing
-        // sched_vehicles(result) is (rd_listing_exact: duplicate-free, lists exactly the vehicles with a tour; A-iter)
-        r is Ok && rd_listing_exact(&r->Ok_0) ==> r->Ok_0.sched_ok(), // @obl C10.replace_vehicle_by_dummy.result_satisfies_the_schedule_invariants_again
-        r is Ok && rd_listing_exact(&r->Ok_0) ==> r->Ok_0.rs_ok(), // @obl C10.replace_vehicle_by_dummy.result_satisfies_the_schedule_invariants_again
+        // sched_ok (network, the listing sched_vehicles(result) is duplicate-free and lists exactly the vehicles with a tour --
+        // rd_listing_exact, NO LONGER a premise: the listing is defined as the concatenation of the grouped id lists, and exactly one
+        // occurrence of the id leaves the list of the vehicle's type --, number of vehicles, vehicle_ok for every vehicle, the cost figure
+        // covers the tours' costs and stays below 2^61) and with it the whole bundle, unconditionally
+        r is Ok ==> rd_listing_exact(&r->Ok_0), // @obl C10.replace_vehicle_by_dummy.result_satisfies_the_schedule_invariants_again
+        r is Ok ==> r->Ok_0.sched_ok(), // @obl C10.replace_vehicle_by_dummy.result_satisfies_the_schedule_invariants_again
+        r is Ok ==> r->Ok_0.rs_ok(), // @obl C10.replace_vehicle_by_dummy.result_satisfies_the_schedule_invariants_again
         // listings (the schedule-invariant reading of listed_ok: it holds for every vehicle): every other listed vehicle is still
         // listed; lists that held exactly the vehicles of their type (the one of v: once) still do
         r is Ok ==> forall|u: VehicleIdx| u != vehicle_idx && self.vehicles@.contains_key(u) && self.listed_ok(u) ==> #[trigger] r->Ok_0.listed_ok(u), // @obl C10.replace_vehicle_by_dummy.result_satisfies_the_schedule_invariants_again
@@ -670,10 +680,10 @@ impl Clone for TransitionCycle {
         r is Ok ==> forall|v: VehicleIdx| self.listed_ok(v) ==> #[trigger] r->Ok_0.listed_ok(v), // @obl C10.delete_dummy.result_satisfies_the_schedule_invariants_again
         r is Ok ==> forall|t: VehicleTypeIdx| self.type_known(t) ==> #[trigger] r->Ok_0.type_known(t), // @obl C10.delete_dummy.result_satisfies_the_schedule_invariants_again
         // ... and the two bundles: sv_ok (the precondition bundle of spawn_vehicle_for_path / (3)) and rs_ok (the one of
-        // remove_segment / (1)); the latter GIVEN the two conjuncts of sched_ok that say what the uninterpreted listing
-        // sched_vehicles(result) is (rd_listing_exact; A-iter: nothing is known about the listing of a new schedule value)
+        // remove_segment / (1)); the latter unconditionally now: the listing sched_vehicles(result) is computed from components the
+        // operation leaves alone (network, grouped id lists), so it is the listing of `self` and still exact (rd_listing_exact)
         r is Ok && self.sv_ok() ==> r->Ok_0.sv_ok(), // @obl C10.delete_dummy.result_satisfies_the_schedule_invariants_again
-        r is Ok && self.rs_ok() && rd_listing_exact(&r->Ok_0) ==> r->Ok_0.rs_ok(), // @obl C10.delete_dummy.result_satisfies_the_schedule_invariants_again
+        r is Ok && self.rs_ok() ==> rd_listing_exact(&r->Ok_0) && r->Ok_0.rs_ok(), // @obl C10.delete_dummy.result_satisfies_the_schedule_invariants_again
 //@first
         hide(Schedule::sv_ok);
         hide(Schedule::rs_ok);
